@@ -1360,7 +1360,7 @@ class CustomFunction:
 
     def __call__(self, *args: Any, **kwargs: Any) -> "Function":
         if not self._has_params():
-            return Function(self.name, alias=kwargs.get("alias"))
+            return Function(self.name, *args, alias=kwargs.get("alias"))
 
         if not self._is_valid_function_call(*args):
             raise FunctionException(
